@@ -45,7 +45,10 @@ def compute(spec, kw):
     outs = []
     for j, (name, dims) in enumerate(spec["vars"]):
         shape = tuple(spec["sizes"][d] for d in dims)
-        outs.append(var_value(kw, j, shape) + spec.get("epoch", 0))
+        val = var_value(kw, j, shape) + spec.get("epoch", 0)
+        if spec.get("str_var") == j and not shape:
+            val = "txt%d" % int(val)          # a string-valued scalar output
+        outs.append(val)
     ret = spec["ret"]
     if ret == "single":
         return outs[0]
@@ -142,8 +145,12 @@ def check_dataset(ds, *, spec, fn_args, coords, requested, fn_kwargs_extra,
                 shape = tuple(spec["sizes"][d] for d in dims)
                 want = np.asarray(var_value(full, j, shape), dtype=float) \
                     + spec.get("epoch", 0)
-                ok = got.shape == want.shape and np.array_equal(
-                    got.astype(float), want)
+                if spec.get("str_var") == j and not shape:
+                    want = np.asarray("txt%d" % int(want))
+                    ok = got.shape == () and str(got) == str(want)
+                else:
+                    ok = got.shape == want.shape and np.array_equal(
+                        got.astype(float), want)
                 require(ok, "value-at-label",
                         lambda: f"{tag}: {name}.sel({kw}) = "
                                 f"{got.tolist()!r:.200}, the function "
@@ -222,6 +229,13 @@ def check_dataframe(df, *, spec, fn_args, settings, fn_kwargs_extra,
         for j, name in enumerate(names):
             want = var_value(full, j, ()) + spec.get("epoch", 0)
             got = row[name]
+            if spec.get("str_var") == j:
+                want = "txt%d" % int(want)
+                require(str(got) == want, "row-mispaired",
+                        lambda: f"{tag}: row {i} has arguments {kw} with "
+                                f"{name}={got!r}; the function returned "
+                                f"{want!r} for these arguments")
+                continue
             require(float(got) == want, "row-mispaired",
                     lambda: f"{tag}: row {i} has arguments {kw} with "
                             f"{name}={got!r}; the function returned {want!r} "
